@@ -50,8 +50,18 @@ pub struct Summary {
     pub extra: BTreeMap<String, u64>,
 }
 
+/// message of the first panic since the slot was last cleared (shuttle engine: a panic caught
+/// inside a task leaves shuttle's own primitives in an inconsistent state, every later panic or
+/// deadlock of that execution is a consequence)
+pub static FIRST_PANIC: std::sync::Mutex<Option<String>> = std::sync::Mutex::new(None);
+
 pub fn install_quiet_panic_hook() {
     std::panic::set_hook(Box::new(|info| {
+        if let Ok(mut g) = FIRST_PANIC.try_lock() {
+            if g.is_none() {
+                *g = Some(info.to_string());
+            }
+        }
         if std::env::var_os("VH_PANIC_TRACE").is_some() {
             eprintln!("[panic] {info}");
             if std::env::var_os("VH_PANIC_BT").is_some() {
